@@ -41,6 +41,8 @@ pub struct Profile {
     pub rm_small: bool,
     /// Maximum Packet Size limits are placed at size-1 / size / size+1 / size+3 of a packet the history will send or receive
     pub mps_near: bool,
+    /// the peer announces a Topic Alias Maximum > 0 in most connections and local publishes mostly bind / use aliases (C13)
+    pub alias_heavy: bool,
 }
 
 impl Profile {
@@ -69,6 +71,7 @@ impl Profile {
             alias_use: true,
             rm_small: false,
             mps_near: false,
+            alias_heavy: false,
         }
     }
 }
@@ -118,7 +121,12 @@ pub fn body_op(p: Profile, as_client: bool, v5: bool, hostile: BoxedStrategy<Op>
     let s = if p.acks_live_only { sel_live() } else { sel() };
     let mut alts: Vec<(u32, BoxedStrategy<Op>)> = Vec::new();
     let am = if v5 { alias_mode(p.max_alias) } else { Just(AliasMode::None).boxed() };
-    let am_local = if p.alias_use { am.clone() } else { am.clone().prop_map(|a| if let AliasMode::Use(_) = a { AliasMode::None } else { a }).boxed() };
+    let am = if v5 && p.alias_heavy {
+        prop_oneof![3 => am.clone(), 3 => (1u16..=p.max_alias.max(1)).prop_map(AliasMode::Bind), 1 => (1u16..=p.max_alias.max(1)).prop_map(AliasMode::Use), 4 => any::<u16>().prop_map(AliasMode::UseLive)].boxed()
+    } else {
+        am
+    };
+    let am_local = if p.alias_use { am.clone() } else { am.clone().prop_map(|a| if let AliasMode::Use(_) | AliasMode::UseLive(_) = a { AliasMode::None } else { a }).boxed() };
     if p.publish > 0 {
         alts.push((
             w(p.publish),
@@ -225,7 +233,7 @@ enum End {
 /// ops a contract-respecting application may issue while disconnected
 fn offline_op(p: Profile, v5: bool) -> BoxedStrategy<Op> {
     let am = if v5 { alias_mode(p.max_alias) } else { Just(AliasMode::None).boxed() };
-    let am = if p.alias_use { am } else { am.prop_map(|a| if let AliasMode::Use(_) = a { AliasMode::None } else { a }).boxed() };
+    let am = if p.alias_use { am } else { am.prop_map(|a| if let AliasMode::Use(_) | AliasMode::UseLive(_) = a { AliasMode::None } else { a }).boxed() };
     prop_oneof![
         3 => opt_strategy().prop_map(Op::SetOpt),
         3 => (0u8..=2, 0u8..4, am, 0u8..6, any::<bool>(), id_src()).prop_map(|(qos, topic, alias, plen, retain, id)| Op::Publish { qos, topic, alias, plen, retain, id }),
@@ -256,10 +264,19 @@ fn segment(p: Profile, cfg: ConnCfg, as_client: bool, hostile: BoxedStrategy<Op>
         proptest::collection::vec(body_op(p, as_client, v5, hostile), 0..p.max_body),
         end,
         0u8..4,
-        0u16..8,
+        0u16..64,
     )
         .prop_map(move |(pre, mut ca, mut ka, fail, body, end, chunk, small)| {
-            if p.rm_small && v5 && small < 7 {
+            if p.alias_heavy && v5 && small % 4 != 3 {
+                // the Topic Alias Maximum that applies to what this object sends is announced by the peer
+                let tam = Some([1u16, 2, 5, 2][(small % 4) as usize]);
+                if as_client {
+                    ka.p.tam = tam;
+                } else {
+                    ca.p.tam = tam;
+                }
+            }
+            if p.rm_small && v5 && small % 8 != 7 {
                 // the limit that applies to what this object sends is announced by the peer
                 if as_client {
                     ka.p.rm = Some(1 + small % 3);
@@ -267,13 +284,16 @@ fn segment(p: Profile, cfg: ConnCfg, as_client: bool, hostile: BoxedStrategy<Op>
                     ca.p.rm = Some(1 + small % 3);
                 }
             }
+            // a DISCONNECT with a long Reason String at the end of some size-directed connections
+            let big_disc: Option<u8> = if p.mps_near && v5 && matches!(end, End::SendDisconnect) && chunk >= 2 { Some(16 + 3 + (small / 8) as u8 * 2 + (chunk - 2)) } else { None };
             if p.mps_near && v5 {
                 // size of a packet this history will try to send / will receive
-                let local = body.iter().find_map(|o| match o {
+                let local = if let Some(rc) = big_disc { Some(disconnect_ap(V::V5, rc)) } else { None };
+                let local = local.or_else(|| body.iter().find_map(|o| match o {
                     Op::Publish { qos, topic, alias, plen, retain, .. } => Some(publish_ap(V::V5, *qos, false, *retain, *topic, *alias, Some(1), payload_of(1, *plen))),
                     Op::Subscribe { n, .. } => Some(AP::Subscribe { v: V::V5, pid: 1, props: vec![], entries: (0..(*n % 3 + 1)).map(|i| (TOPICS[i as usize].to_string(), i % 3)).collect() }),
                     _ => None,
-                });
+                }));
                 let inbound = body.iter().find_map(|o| match o {
                     Op::PeerPublish { qos, topic, alias, plen, dup, .. } => Some(publish_ap(V::V5, *qos, *dup, false, *topic, *alias, Some(1), payload_of(1, *plen))),
                     _ => None,
@@ -319,7 +339,7 @@ fn segment(p: Profile, cfg: ConnCfg, as_client: bool, hostile: BoxedStrategy<Op>
             ops.extend(body);
             match end {
                 End::SendDisconnect => {
-                    ops.push(Op::Disconnect { rc: 0 });
+                    ops.push(Op::Disconnect { rc: big_disc.unwrap_or(0) });
                     ops.push(Op::Closed);
                 }
                 End::PeerDisconnect => {
@@ -404,6 +424,12 @@ pub fn run_history_mode(h: &History, obs: &mut [&mut dyn Observer], strict_close
         let pre_app = w.app.clone();
         w.exec(op);
         let st = w.steps.last().unwrap().clone();
+        if std::env::var("VERIF_TRACE").is_ok() {
+            // development aid: the whole history with the hook snapshot after every step
+            let keep = ["status", "need_store", "store", "pid_free", "pid_puback", "pid_pubrec", "pid_pubcomp", "pid_pubrel", "qos2_publish_handled", "offline_publish", "is_client"];
+            let stt: Vec<String> = w.c.state().into_iter().filter(|(k, _)| keep.contains(&k.as_str())).map(|(k, v)| format!("{k}={v}")).collect();
+            eprintln!("TRACE {}\n      {}", st.brief(), stt.join(" "));
+        }
         for o in obs.iter_mut() {
             if let Err(mut f) = o.on_step(&w, &pre, &pre_app, &st) {
                 f.detail = format!("{}\n  history tail:\n  {}", f.detail, w.tail(8));
